@@ -375,10 +375,12 @@ int main(int argc, char **argv) {
         } else if (auto *li = dyn_cast<LoadInst>(&I)) {
           s += ",\"size\":" + std::to_string(DL.getTypeStoreSize(li->getType()).getFixedSize());
           s += std::string(",\"volatile\":") + (li->isVolatile() ? "true" : "false");
+          s += ",\"align\":" + std::to_string(li->getAlign().value());
         } else if (auto *si = dyn_cast<StoreInst>(&I)) {
           s += ",\"size\":" + std::to_string(DL.getTypeStoreSize(si->getValueOperand()->getType()).getFixedSize());
           s += ",\"val_bits\":" + std::to_string(bitsOf(si->getValueOperand()->getType(), DL));
           s += std::string(",\"volatile\":") + (si->isVolatile() ? "true" : "false");
+          s += ",\"align\":" + std::to_string(si->getAlign().value());
         } else if (auto *ci2 = dyn_cast<CastInst>(&I)) {
           s += ",\"src_bits\":" + std::to_string(bitsOf(ci2->getSrcTy(), DL));
           s += ",\"src_ty\":" + q(tyStr(ci2->getSrcTy()));
